@@ -52,7 +52,15 @@ fn main() {
         "C12" => {
             let chk = Check::new("C12", part, tier, "model_checking");
             chk.rule("hook conformance: the transcript (hash over every result) of ALL action sequences up to depth 5 (6 thorough) over 13 actions (9 Control Changes, a note-on, poll of two channels, reset) with timeouts 0 and Duration::MAX, computed on the UNHOOKED build with the real std::time::Instant, must equal the transcript of the hooked build (mock clock) recorded by the std part of this check");
-            let (h, calls, reports) = conform::transcript(if tier.thorough() { 6 } else { 5 });
+            let (h, calls, reports) = match xs::catch(|| conform::transcript(if tier.thorough() { 6 } else { 5 })) {
+                Ok(t) => t,
+                Err(msg) => {
+                    // valid Control Change sequences, polls and resets with timeouts 0 and Duration::MAX
+                    // on the real clock: a panic is the scanner failing to decode them
+                    chk.violate(xs::Violation::new("panics-on-valid-input", format!("C12/panics-on-valid-input/polling-scanner-real-clock/{}", part), format!("the polling scanner panicked on the real clock while running all action sequences with timeouts 0 and Duration::MAX: {}", msg)));
+                    (0, 0, 0)
+                }
+            };
             chk.add_eval(calls);
             chk.add_nontrivial(reports);
             let mine = format!("{:016x}", h);
@@ -65,7 +73,7 @@ fn main() {
                     chk.set("hooked_build_hash", json!(theirs));
                     if !same_tier {
                         chk.machinery_error("C12.std.json was written by a different tier; run the std part first".to_string());
-                    } else if theirs != mine {
+                    } else if theirs != mine && calls > 0 {
                         chk.machinery_error(format!("HOOK DOES NOT CONFORM: hooked build transcript {} != unhooked build transcript {}; results obtained on the hooked build say nothing about the shipped code", theirs, mine));
                     }
                 }
